@@ -46,6 +46,7 @@ WORLDS = {
     'channel': dict(RNG_SEAM),
     'prng': dict(RNG_SEAM),
     'cli': dict(build=build_cli),
+    'bytes': {},
 }
 
 
@@ -181,7 +182,25 @@ def check_C19(tier, seed):
     return o.finish()
 
 
+def check_C20(tier, seed):
+    o = D.Outcome('C20', tier, seed)
+    o.components = dict(real=COMPONENTS_LIB['real'] + ['src/cplusplus/ascon-byte-array.cpp and utility.h compiled with -DASCON_NO_STL (whole library rebuilt in that configuration)'],
+                        stub=['global operator new/delete (allocation-failure decision and live-block accounting)'])
+    o.assumptions = ['hex grammar oracle: digits of both cases, the six C whitespace characters, anything else / odd count / insufficient space => -1',
+                     'byte_array mirror: std::vector<unsigned char>; pop_back on an empty value is not generated (undefined for std::vector)',
+                     'after an injected std::bad_alloc only the other variables are required to be unchanged (no strong guarantee is stated)',
+                     'the hex half of this check is model-based input sampling, not schedule/fault search (DESIGN §3 W6)']
+    n = 60000 if tier == 'quick' else 1200000
+    flv = [('rel', n // 3), ('nostl', n)] if tier == 'quick' else [('rel', n // 3), ('nostl', n), ('nostlsan', n // 6)]
+    for fl, k in flv:
+        exe = world_exe('bytes', 'asm', (4, 2, 4), fl)
+        o.add(D.run_batch(exe, k, tier, seed, label='bytes@%s' % fl, crash_prop='C12'))
+    o.extra['distinct_states_measure'] = 'visited (operation, operated value shared with another variable, allocation fault armed, size class) and (codec op, text kind, capacity class, accept/reject) tuples'
+    return o.finish()
+
+
 CHECKS = {
+    'C20': check_C20,
     'C19': check_C19,
     'C15': check_C15,
     'C02': check_C02,
@@ -194,4 +213,6 @@ SETUP_BUILDS = [
     lambda: world_exe('channel'),
     lambda: world_exe('prng'),
     lambda: world_exe('cli'),
+    lambda: world_exe('bytes'),
+    lambda: world_exe('bytes', 'asm', (4, 2, 4), 'nostl'),
 ]
